@@ -32,6 +32,16 @@ func scrutineeIsInputArg(d *ast.Decl) bool {
 	return true
 }
 
+// allBound reports whether every one of the variables is in the list of bound variables.
+func allBound(vars map[ast.Variable]bool, boundVars VarList) bool {
+	for v := range vars {
+		if boundVars.Find(v) == -1 {
+			return false
+		}
+	}
+	return true
+}
+
 // RewriteClause rewrites a clause using information from declarations.
 func RewriteClause(decls map[ast.PredicateSym]*ast.Decl, clause ast.Clause) ast.Clause {
 	if len(clause.Premises) == 0 {
@@ -71,8 +81,19 @@ func RewriteClause(decls map[ast.PredicateSym]*ast.Decl, clause ast.Clause) ast.
 			}
 			boundVars = boundVars.Extend(defVars)
 		case ast.Eq:
+			// An equality gives the variables of one side a value only when the other side has one already.
+			leftVars := make(map[ast.Variable]bool)
+			ast.AddVars(p.Left, leftVars)
+			rightVars := make(map[ast.Variable]bool)
+			ast.AddVars(p.Right, rightVars)
+			leftBound, rightBound := allBound(leftVars, boundVars), allBound(rightVars, boundVars)
 			m := boundVars.AsMap()
-			ast.AddVars(p, m)
+			if rightBound {
+				ast.AddVars(p.Left, m)
+			}
+			if leftBound {
+				ast.AddVars(p.Right, m)
+			}
 			boundVars = NewVarList(m)
 
 		case ast.NegAtom:
